@@ -13,7 +13,16 @@
   W  wrappers          : scalar / block value type / make_block_solver / as_block / as_scalar /
                          builtin_hybrid / block direct solve: same solution of the SCALAR system
                          (exact CG termination) and truthful reported residual (truncated runs)
-  M  mixed precision   : float preconditioner under a double solver reaches 1e-8 (tested, not proved)
+  M  mixed precision   : float preconditioner under a double solver reaches 1e-8 (tested, not proved); round 2b: also
+                         the combinations that RE-INTERPRET vectors (float builtin_hybrid under a double hybrid solver,
+                         as_block with float blocks in a float AMG under a double solver, make_block_solver with float
+                         blocks fed double vectors)
+  MK mixed kernels     : spmv / residual / vmul of FLOAT block (and hybrid) matrices with DOUBLE scalar vectors on small
+                         dyadic data (float and double arithmetic both exact) vs the extracted model at BlockS:
+                         C13_hybrid_spmv_is_scalar / C13_block_spmv read at mixed precision -- the model has one Scalar;
+                         the claim tied here is that the vector view (reinterpret_as_rhs) does not depend on the matrix
+                         precision (C13_mixed_precision_view).  Complex vectors through complex blocks: the view itself
+                         (op cview) vs BlockSpmv.as_rhs at ComplexS.
 """
 import random
 from fractions import Fraction as F
@@ -32,7 +41,7 @@ ASSUMPTIONS = [
     "mixed precision: a rounding statement, tested on the model problems in the double/float build, not proved",
     "Eigen block value types (Eigen::Matrix<double,b,b>) are driven in double on dyadic data (every operation exact) for the block adapter + block spmv only; solves with Eigen blocks are not driven",
 ]
-TRUSTED_BASE = ["harness/drv_adapters.cpp (ops block, cplx, cplx_solve), drv_blocks*.cpp, drv_blocks_spmv.cpp, drv_adapters_vt.cpp (Eigen build), drv_mixed.cpp; ocaml/adapters/ops_adapters.ml, ocaml/blockspmv/ops_blockspmv.ml (second extracted model driver: Extract_blockspmv.v)"]
+TRUSTED_BASE = ["harness/drv_adapters.cpp (ops block, cplx, cplx_solve), drv_blocks*.cpp, drv_blocks_spmv.cpp, drv_adapters_vt.cpp (Eigen build), drv_mixed.cpp (mixed-precision solves; float-block x double-vector kernels on dyadic data); ocaml/adapters/ops_adapters.ml, ocaml/blockspmv/ops_blockspmv.ml (second extracted model driver: Extract_blockspmv.v)"]
 VARIANTS = ["scalar", "block", "mbs", "direct", "as_block", "as_scalar", "hybrid"]
 
 
@@ -89,6 +98,37 @@ def mixed_cases(tier):
     return ["m%d mixed %s %d %d %s" % (k, c[0], c[1], c[2], c[3]) for k, c in enumerate(cs)]
 
 
+def mixed_reinterp_cases(tier):
+    """mixed precision x re-interpretation (seeded C13-2): kind dim m eps b"""
+    cs = [("hybrid_fd", 2, 20, "1", 2), ("hybrid_fd", 3, 6, "1", 3), ("hybrid_fd", 2, 24, "1/8", 2),
+          ("as_block_fd", 2, 20, "1", 2), ("as_block_fd", 3, 6, "1/4", 3), ("as_block_fd", 2, 16, "1", 3),
+          ("mbs_fd", 2, 20, "1", 2), ("mbs_fd", 3, 6, "1", 3), ("mbs_fd", 2, 24, "1/8", 2)]
+    if tier != "quick":
+        cs += [("hybrid_fd", 2, 64, "1", 2), ("hybrid_fd", 3, 12, "1/4", 3), ("as_block_fd", 2, 64, "1", 2),
+               ("as_block_fd", 3, 12, "1", 3), ("mbs_fd", 2, 64, "1/16", 2), ("mbs_fd", 3, 12, "1", 3)]
+    return ["mr%d mixed %s %d %d %s %d" % (k, c[0], c[1], c[2], c[3], c[4]) for k, c in enumerate(cs)]
+
+
+def mixed_kernel_cases(tier, seed):
+    """float block / hybrid matrices x double scalar vectors, dyadic data (|numerators| <= 8, denominators <= 4, at most 16
+    entries per row): every product and every partial sum has < 20 significant bits, exact in binary32 and binary64"""
+    out = []
+    for l in block_instance_cases(tier, seed + 2, prefix="mx", dyadic=True, N=(60 if tier == "quick" else 400)):
+        out.append(l)
+    r = random.Random(seed * 1000 + 133)
+    for it in range(30 if tier == "quick" else 200):
+        b = r.choice([2, 3, 4]); n = r.choice([1, 2, 3, 5])
+        X = [vtmodel.rand_block(r, b) for _ in range(n)]
+        y = [c17.dy(r) for _ in range(n * b)]; z = [c17.dy(r) for _ in range(n * b)]
+        alpha = r.choice([F(1), F(-1), c17.dy(r, True)]); beta = r.choice([F(0), F(1), c17.dy(r, True)])
+        out.append("mxv%d bvmul %d %d %s %s %s %s %s" % (it, b, n, " ".join(vtmodel.fmt_blk(v) for v in X), fmt_vec(y), fmt_q(alpha), fmt_q(beta), fmt_vec(z)))
+    return out
+
+
+def cview_cases():
+    return ["mxc%d cview %d %d" % (k, b, n) for k, (b, n) in enumerate([(2, 2), (2, 8), (3, 3), (3, 12), (4, 4), (4, 16)])]
+
+
 def vtok(s):
     xs = s.strip()[1:-1].split()
     return " ".join([str(len(xs))] + xs)
@@ -100,6 +140,7 @@ def run(ctx, cases_override=None):
     if cases_override:
         for l in cases_override:
             op = l.split()[1]
+            if l.startswith("mx"): fails += run_mixed_kernels(ctx, [l]); continue
             if op == "bsolve": fails += run_wrappers(ctx, [("r0", int(l.split()[2]), l.split(" ", 1)[1], "full" if int(l.split()[4]) > 3 else "trunc", 0, None, None)])
             elif op == "cplx_solve": fails += run_cplx_solve(ctx, [l])
             elif op == "mixed": fails += run_mixed(ctx, [l])
@@ -124,15 +165,46 @@ def run(ctx, cases_override=None):
     # the exact CG runs do not terminate early and only cost time; the failing input is already found)
     if not fails:
         fails += run_wrappers(ctx, wrapper_cases(tier, seed))
-    # ---- M: mixed precision (tested)
-    fails += run_mixed(ctx, mixed_cases(tier))
+    # ---- M: mixed precision (tested), MK: mixed-precision kernels with re-interpreted vectors (exact)
+    fails += run_mixed_kernels(ctx)
+    fails += run_mixed(ctx, mixed_cases(tier) + mixed_reinterp_cases(tier))
     return fails
 
 
-def block_instance_cases(tier, seed):
+def run_mixed_kernels(ctx, lines=None):
+    """float block / hybrid matrix, DOUBLE scalar vectors (drv_mixed.cpp) vs the extracted model at BlockS (model driver
+    blockspmv).  The model has ONE Scalar: agreement says the result -- in particular the element type of the vector view
+    backend::reinterpret_as_rhs -- does not depend on the precision of the matrix."""
+    tier, seed = ctx["tier"], ctx["seed"]
+    ctx2 = vtmodel.model_ctx(ctx)
+    if lines is None: lines = mixed_kernel_cases(tier, seed) + cview_cases()
+    f, _, _ = diff_run(ctx2, "mixed", lines, shards=8, timeout=300,
+                       theorem="correspondence drv_mixed (float blocks x double vectors, re-interpreted) vs Kernels.spmv / residual / vmul at BlockS on BlockSpmv.block_matrix / as_rhs (C13_hybrid_spmv_is_scalar, C13_block_spmv, C13_mixed_precision_view: the vector view does not depend on the matrix precision)")
+    for x in f: x["group"] = "mixed-kernel"
+    return f
+
+
+def classify(fail):
+    """the only listed finding: a std::complex vector re-interpreted through COMPLEX blocks comes out as a view of REAL
+    b-vectors (one element per complex number: static_matrix::replace_scalar puts the bare real scalar into the rhs type).
+    Signature only for exactly that shape; any other difference is a new violation."""
+    if fail.get("group") != "mixed-kernel" or fail.get("op") != "cview": return {}
+    try:
+        toks = fail["case"].split(); b, n = int(toks[2]), int(toks[3])
+        want = "elements=%d complex_per_element=%d bytes_per_element=%d" % (n // b, b, 16 * b)
+        got = "elements=%d complex_per_element=%d bytes_per_element=%d" % (n * 16 // (8 * b), (8 * b) // 16, 8 * b)
+        if fail.get("model") == want and fail.get("impl") == got:
+            return dict(group="mixed-kernel", op="cview", site="backend::reinterpret_as_rhs", vector="std::complex",
+                        blocks="complex", view="real-b-vectors")
+    except Exception:
+        pass
+    return {}
+
+
+def block_instance_cases(tier, seed, prefix="bi", dyadic=False, N=None):
     """the objects of theorem C13_block_spmv: block spmv / residual (block vectors and hybrid scalar vectors)"""
     out = []
-    for l in c17.block_cases(tier, seed + 11, prefix="bi"):
+    for l in c17.block_cases(tier, seed + 11, prefix=prefix, dyadic=dyadic)[:N]:
         cid, _, rest = l.split(" ", 2)
         out.append("%ss bspmv %s" % (cid, rest)); out.append("%sh hspmv %s" % (cid, rest))
         toks = rest.split(); b = toks[0]; n = int(toks[1]); k = 3
@@ -211,7 +283,9 @@ def run_wrappers(ctx, cs):
 
 
 def run_mixed(ctx, lines):
-    impl = ctx["run_driver"](ctx["cpp"]["mixed"], lines, shards=4)
+    # one process per case (at most 16), 10 minutes at most: a broken tree (NaN / denormal garbage in the vectors)
+    # must not stall the run
+    impl = ctx["run_driver"](ctx["cpp"]["mixed"], lines, shards=16, timeout=600)
     account(ctx, lines, impl, nontrivial=lambda op, p, o: bool(o) and not o.startswith(("EXC", "CRASH")))
     fails = []
     for l in lines:
